@@ -1,5 +1,5 @@
 """Seeded, feature-directed generator of small nmfu programs for C01 (statements: matches, appends, assignments, hooks, finish,
-optional, loop/break, case/else, try/catch, if, foreach). Alphabet includes bytes >= 0x80, 0x00 and case pairs. Keeps foreach
+optional, loop/break, case/else incl. multi-label and greedy/prio clauses, try/catch, if, foreach, wait). Alphabet includes bytes >= 0x80, 0x00 and case pairs. Keeps foreach
 do-blocks free of effects whose order against the per-byte append is observable (outside the claim)."""
 import random
 
@@ -44,16 +44,24 @@ def programs(seed, count):
             return 'loop { ' + pat() + '; ' + stmts(d - 1, True) + ' }'
         if k < 0.87:
             cls = []
+            greedy = rnd.random() < 0.2
             for i in range(rnd.randint(1, 3)):
-                cls.append(pat() + ' -> { ' + (stmts(d - 1, inloop) if rnd.random() < 0.7 else '') + ' }')
+                labels = pat() if rnd.random() < 0.7 else pat() + ', ' + pat()      # multi-label clauses
+                prio = ('prio %d ' % rnd.randint(1, 3)) if greedy and rnd.random() < 0.6 else ''
+                cls.append(prio + labels + ' -> { ' + (stmts(d - 1, inloop) if rnd.random() < 0.7 else '') + ' }')
             if rnd.random() < 0.5:
                 cls.append('else -> { ' + (stmts(d - 1, inloop) if rnd.random() < 0.6 else '') + ' }')
-            return 'case { ' + ' '.join(cls) + ' }'
+            return ('greedy ' if greedy else '') + 'case { ' + ' '.join(cls) + ' }'
         if k < 0.93:
             return 'try { ' + stmts(d - 1, inloop) + ' } catch' + rnd.choice(['', ' (nomatch)', ' (outofspace)']) + ' { ' + (stmts(d - 1, inloop) if rnd.random() < 0.7 else '') + ' }'
         if k < 0.97:
             return rnd.choice(['if n > 1 { ', 'if s.len == 2 { ', 'if f && u > 2 { ']) + stmts(d - 1, inloop) + ' } else { ' + stmts(d - 1, inloop) + ' }'
-        return 'foreach { ' + pat() + '; } do { n = [n + $last]; }'
+        if k < 0.985:
+            return 'foreach { ' + pat() + '; } do { n = [n + $last]; }'
+        if k < 0.993:
+            # a body with structure (case / wait / optional inside the foreach); the do-block touches only counters no hook snapshot orders against appends
+            return 'foreach { ' + stmts(d - 1, False) + ' } do { u = [u + 1]; }'
+        return 'wait ' + rnd.choice(['"ab"', '"c"', '/a[bc]/', '"aB"i']) + ';'
     out = []
     for _ in range(count):
         out.append(HDR + 'parser { ' + pat() + '; ' + stmts(3, False) + ' }\n')
